@@ -1067,6 +1067,22 @@ fn gen_c12(r: &mut Rng, _t: Tier, _job: u64) -> Plan {
         let (h, _) = header_offsets(&p);
         add_header_cuts(r, &mut p.reads, &h, 40);
     }
+    if r.chance(1, 7) {
+        // one transport call fails once (Interrupted half of the time; reads, writes and
+        // flushes alike): whatever the server makes of it, it must not go back to waiting
+        // with a reply that it has written but not flushed
+        let kind = match r.below(6) {
+            0 | 1 | 2 => IoKind::Interrupted,
+            3 => IoKind::WouldBlock,
+            4 => IoKind::TimedOut,
+            _ => IoKind::BrokenPipe,
+        };
+        p.faults.push(Fault {
+            at: if r.coin() { FaultAt::Op(r.below(90)) } else { FaultAt::Flush(r.below(12)) },
+            kind: FaultKind::Err(kind),
+            persistent: false,
+        });
+    }
     p
 }
 
